@@ -27,7 +27,7 @@ type Ctx struct {
 	NShards int
 	Rec     *h.Recorder
 	LC      *h.LastCase
-	Replay  *h.Violation // non-nil: replay this single case verbosely
+	Replay  *h.Violation          // non-nil: replay this single case verbosely
 	Filter  func(cs *h.Case) bool // optional: RunDocs skips cases for which it returns false
 	seq     uint64
 }
